@@ -443,6 +443,22 @@ func (e *exprCtx) call(c *ssa.CallCommon) string {
 	if n == "" {
 		n = "dyn:" + e.expr(c.Value)
 	}
+	// binary.BigEndian.Uint16(b[k:...]) with a constant k is the hand-written b[k]<<8 | b[k+1]
+	if n == "(encoding/binary.bigEndian).Uint16" {
+		if as := callArgs(c); len(as) == 2 {
+			if sl, ok := as[1].(*ssa.Slice); ok {
+				lo := int64(0)
+				okLo := sl.Low == nil
+				if sl.Low != nil {
+					lo, okLo = constInt(sl.Low)
+				}
+				if okLo {
+					b := e.expr(sl.X)
+					return fmt.Sprintf("((%s[%d] << 8) | %s[%d])", b, lo, b, lo+1)
+				}
+			}
+		}
+	}
 	var as []string
 	for _, a := range callArgs(c) {
 		as = append(as, e.expr(a))
@@ -600,6 +616,95 @@ type Guard struct {
 	Cond ssa.Value
 	Pol  bool
 	If   *ssa.If
+	Alt  [][]Guard // Cond == nil: a disjunction of conjunctions (from a branch on a flag set on several edges)
+}
+
+// boolPhiIf: block b ends in `if v` / `if !v` where v is a phi of b itself; returns the phi and whether the test is negated.
+func boolPhiIf(b *ssa.BasicBlock) (*ssa.Phi, bool, bool) {
+	if b == nil || len(b.Instrs) == 0 {
+		return nil, false, false
+	}
+	iff, ok := b.Instrs[len(b.Instrs)-1].(*ssa.If)
+	if !ok {
+		return nil, false, false
+	}
+	v := iff.Cond
+	neg := false
+	for {
+		if u, ok := v.(*ssa.UnOp); ok && u.Op == token.NOT {
+			v = u.X
+			neg = !neg
+			continue
+		}
+		break
+	}
+	phi, ok := v.(*ssa.Phi)
+	if !ok || phi.Block() != b {
+		return nil, false, false
+	}
+	return phi, neg, true
+}
+
+// phiEdgeConst: the boolean constant phi takes when its block is entered from pred (if it is one).
+func phiEdgeConst(phi *ssa.Phi, pred *ssa.BasicBlock) (bool, bool) {
+	for k, p := range phi.Block().Preds {
+		if p == pred && k < len(phi.Edges) {
+			if cst, ok := phi.Edges[k].(*ssa.Const); ok && cst.Value != nil && cst.Value.Kind() == constant.Bool {
+				return constant.BoolVal(cst.Value), true
+			}
+			return false, false
+		}
+	}
+	return false, false
+}
+
+// feasibleSuccs: successors of b when it was entered from `from`. A block that branches on a flag (a phi of boolean
+// constants, the shape left by `ok := false; if c { ok = true }; if ok {…}` and by an expanded helper that returns
+// true/false) continues only on the side the flag selects.
+func feasibleSuccs(b, from *ssa.BasicBlock) []*ssa.BasicBlock {
+	if from == nil {
+		return b.Succs
+	}
+	phi, neg, ok := boolPhiIf(b)
+	if !ok || len(b.Succs) != 2 {
+		return b.Succs
+	}
+	v, known := phiEdgeConst(phi, from)
+	if !known {
+		return b.Succs
+	}
+	if v != neg {
+		return b.Succs[:1]
+	}
+	return b.Succs[1:2]
+}
+
+func isThreaded(b *ssa.BasicBlock) bool {
+	phi, _, ok := boolPhiIf(b)
+	if !ok {
+		return false
+	}
+	for _, p := range b.Preds {
+		if _, known := phiEdgeConst(phi, p); known {
+			return true
+		}
+	}
+	return false
+}
+
+// edgeGuardList: guards that hold when control goes from pred to succ.
+func edgeGuardList(pred, succ *ssa.BasicBlock, depth int) []Guard {
+	out := guardsOfD(pred, depth+1)
+	if len(pred.Instrs) > 0 {
+		if iff, ok := pred.Instrs[len(pred.Instrs)-1].(*ssa.If); ok && len(pred.Succs) == 2 && pred.Succs[0] != pred.Succs[1] {
+			if pred.Succs[0] == succ {
+				out = append([]Guard{{Cond: iff.Cond, Pol: true, If: iff}}, out...)
+			} else if pred.Succs[1] == succ {
+				out = append([]Guard{{Cond: iff.Cond, Pol: false, If: iff}}, out...)
+			}
+		}
+	}
+	return out
 }
 
 func edgeDominates(d *ssa.BasicBlock, succIdx int, b *ssa.BasicBlock) bool {
@@ -622,8 +727,21 @@ func edgeDominates(d *ssa.BasicBlock, succIdx int, b *ssa.BasicBlock) bool {
 }
 
 // guardsOf returns the branch conditions that dominate block b (innermost first).
-func guardsOf(b *ssa.BasicBlock) []Guard {
+func guardsOf(b *ssa.BasicBlock) []Guard { return guardsOfD(b, 0) }
+
+func guardsOfD(b *ssa.BasicBlock, depth int) []Guard {
 	var out []Guard
+	seen := map[[2]any]bool{}
+	add := func(g Guard) {
+		if g.Cond != nil {
+			k := [2]any{g.Cond, g.Pol}
+			if seen[k] {
+				return
+			}
+			seen[k] = true
+		}
+		out = append(out, g)
+	}
 	for d := b.Idom(); d != nil; d = d.Idom() {
 		if len(d.Instrs) == 0 {
 			continue
@@ -632,30 +750,177 @@ func guardsOf(b *ssa.BasicBlock) []Guard {
 		if !ok {
 			continue
 		}
+		side := -1
 		if edgeDominates(d, 0, b) {
-			out = append(out, Guard{iff.Cond, true, iff})
+			side = 0
 		} else if edgeDominates(d, 1, b) {
-			out = append(out, Guard{iff.Cond, false, iff})
+			side = 1
 		}
+		if side < 0 {
+			continue
+		}
+		// a branch on a flag: state the conditions under which the flag has the value this side needs
+		if phi, neg, isFlag := boolPhiIf(d); isFlag && depth < 3 {
+			want := (side == 0) != neg
+			var sets [][]Guard
+			unknown := false
+			for _, p := range d.Preds {
+				v, known := phiEdgeConst(phi, p)
+				if !known {
+					unknown = true
+					break
+				}
+				if v == want {
+					sets = append(sets, edgeGuardList(p, d, depth))
+				}
+			}
+			if !unknown && len(sets) >= 1 {
+				if len(sets) == 1 {
+					for _, g := range sets[0] {
+						add(g)
+					}
+				} else {
+					out = append(out, Guard{Alt: sets, If: iff})
+				}
+				continue
+			}
+		}
+		add(Guard{Cond: iff.Cond, Pol: side == 0, If: iff})
 	}
 	return out
 }
 
-// guardStrs renders guards as "+cond" / "-cond".
+// guardStrs renders guards as "+cond" / "-cond" in canonical polarity (see canonGuard).
 func (c *Ctx) guardStrs(b *ssa.BasicBlock) []string {
 	var out []string
 	for _, g := range guardsOf(b) {
-		s := c.Expr(g.Cond)
-		if g.Pol {
-			out = append(out, "+"+s)
-		} else {
-			out = append(out, "-"+s)
-		}
+		out = append(out, c.guardStr(g))
 	}
 	return out
 }
 
+func (c *Ctx) guardStr(g Guard) string {
+	if g.Cond != nil {
+		return canonGuard(g.Pol, c.Expr(g.Cond))
+	}
+	// common literals are factored out by the caller's reader; render the alternatives sorted
+	var alts []string
+	for _, set := range g.Alt {
+		var lits []string
+		for _, x := range set {
+			lits = append(lits, c.guardStr(x))
+		}
+		sort.Strings(lits)
+		alts = append(alts, "("+strings.Join(uniq(lits), " & ")+")")
+	}
+	sort.Strings(alts)
+	return "OR{" + strings.Join(uniq(alts), " | ") + "}"
+}
+
+// splitCmp splits a rendered comparison "(L op R)" at its top-level operator.
+func splitCmp(e string) (l, op, r string, ok bool) {
+	if len(e) < 2 || e[0] != '(' || e[len(e)-1] != ')' {
+		return
+	}
+	depth := 0
+	inStr := false
+	for i := 0; i < len(e); i++ {
+		ch := e[i]
+		if inStr {
+			if ch == '\\' {
+				i++
+			} else if ch == '"' {
+				inStr = false
+			}
+			continue
+		}
+		switch ch {
+		case '"':
+			inStr = true
+		case '(', '[', '{':
+			depth++
+		case ')', ']', '}':
+			depth--
+			if depth == 0 && i != len(e)-1 {
+				return // the outer parenthesis closes early: not a single parenthesised term
+			}
+		case ' ':
+			if depth == 1 {
+				for _, o := range []string{" == ", " != ", " <= ", " < "} {
+					if strings.HasPrefix(e[i:], o) {
+						return e[1:i], strings.TrimSpace(o), e[i+len(o) : len(e)-1], true
+					}
+				}
+			}
+		}
+	}
+	return
+}
+
+// canonGuard gives every branch condition one spelling whatever way the source wrote the test: a comparison is always
+// stated positively ("-(a == b)" becomes "+(a != b)", "-(a < b)" becomes "+(b <= a)"), a negated operand flips the sign.
+// `if x == nil {A} else {B}` and `if x != nil {B} else {A}` thus give A and B the same guards.
+func canonGuard(pol bool, cond string) string {
+	for strings.HasPrefix(cond, "!") {
+		cond = cond[1:]
+		pol = !pol
+	}
+	if l, op, r, ok := splitCmp(cond); ok && !pol {
+		switch op {
+		case "==":
+			return "+(" + l + " != " + r + ")"
+		case "!=":
+			return "+(" + l + " == " + r + ")"
+		case "<":
+			return "+(" + r + " <= " + l + ")"
+		case "<=":
+			return "+(" + r + " < " + l + ")"
+		}
+	}
+	if pol {
+		return "+" + cond
+	}
+	return "-" + cond
+}
+
+// negGuard is the canonical spelling of the negation of a canonical guard.
+func negGuard(g string) string {
+	if len(g) == 0 {
+		return g
+	}
+	return canonGuard(g[0] != '+', g[1:])
+}
+
+// canonStr canonicalises a guard given as "+cond" / "-cond" (rule code may spell expectations either way).
+func canonStr(g string) string {
+	if len(g) == 0 || (g[0] != '+' && g[0] != '-') {
+		return g
+	}
+	return canonGuard(g[0] == '+', g[1:])
+}
+
+// altGuard is the other spelling of a canonical comparison guard ("+(a != b)" -> "-(a == b)"), or "".
+func altGuard(g string) string {
+	if len(g) == 0 || g[0] != '+' {
+		return ""
+	}
+	if l, op, r, ok := splitCmp(g[1:]); ok {
+		switch op {
+		case "==":
+			return "-(" + l + " != " + r + ")"
+		case "!=":
+			return "-(" + l + " == " + r + ")"
+		case "<":
+			return "-(" + r + " <= " + l + ")"
+		case "<=":
+			return "-(" + r + " < " + l + ")"
+		}
+	}
+	return ""
+}
+
 func hasGuard(gs []string, want string) bool {
+	want = canonStr(want)
 	for _, g := range gs {
 		if g == want {
 			return true
@@ -664,9 +929,33 @@ func hasGuard(gs []string, want string) bool {
 	return false
 }
 
+// guardErrOn / guardOkOn: a dominating test `x != nil` / `x == nil` (in either spelling) of a value whose rendering contains sub.
+func guardErrOn(gs []string, sub string) bool {
+	for _, g := range gs {
+		if l, op, r, ok := splitCmp(strings.TrimPrefix(g, "+")); ok && strings.HasPrefix(g, "+") && op == "!=" && (r == "nil" || l == "nil") && strings.Contains(g, sub) {
+			return true
+		}
+	}
+	return false
+}
+
+func guardOkOn(gs []string, sub string) bool {
+	for _, g := range gs {
+		if l, op, r, ok := splitCmp(strings.TrimPrefix(g, "+")); ok && strings.HasPrefix(g, "+") && op == "==" && (r == "nil" || l == "nil") && strings.Contains(g, sub) {
+			return true
+		}
+	}
+	return false
+}
+
+// hasGuardContaining: a guard of the given polarity whose condition contains sub. For comparisons, which have two
+// spellings ("+(a != b)" is "-(a == b)"), sub should include the operator; both spellings are tried.
 func hasGuardContaining(gs []string, pol string, sub string) bool {
 	for _, g := range gs {
 		if strings.HasPrefix(g, pol) && strings.Contains(g, sub) {
+			return true
+		}
+		if a := altGuard(g); a != "" && strings.HasPrefix(a, pol) && strings.Contains(a, sub) {
 			return true
 		}
 	}
@@ -707,8 +996,10 @@ func instrIndex(i ssa.Instruction) int {
 // If from is nil, the walk starts at function entry.
 func (c *Ctx) escapePath(fn *ssa.Function, from ssa.Instruction, via, bad func(ssa.Instruction) bool) []string {
 	type node struct {
-		b   *ssa.BasicBlock
-		idx int
+		b    *ssa.BasicBlock
+		idx  int
+		from *ssa.BasicBlock // predecessor through which b was entered (kept only for blocks that branch on a flag)
+		par  *node
 	}
 	startB := fn.Blocks[0]
 	startIdx := 0
@@ -716,25 +1007,20 @@ func (c *Ctx) escapePath(fn *ssa.Function, from ssa.Instruction, via, bad func(s
 		startB = from.Block()
 		startIdx = instrIndex(from) + 1
 	}
-	parent := map[*ssa.BasicBlock]*ssa.BasicBlock{}
-	visited := map[*ssa.BasicBlock]bool{}
-	queue := []node{{startB, startIdx}}
-	render := func(b *ssa.BasicBlock, last ssa.Instruction) []string {
+	type vkey struct{ b, from *ssa.BasicBlock }
+	visited := map[vkey]bool{}
+	queue := []*node{{b: startB, idx: startIdx}}
+	render := func(n *node, last ssa.Instruction) []string {
 		var rev []string
-		cur := b
-		for cur != nil {
+		for cur := n; cur != nil; cur = cur.par {
 			ln := ""
-			for _, i := range cur.Instrs {
+			for _, i := range cur.b.Instrs {
 				if p := i.Pos(); p.IsValid() {
 					ln = c.Pos(p)
 					break
 				}
 			}
-			rev = append(rev, fmt.Sprintf("b%d[%s](%s)", cur.Index, cur.Comment, ln))
-			if cur == startB && (len(rev) > 1 || parent[cur] == nil) {
-				break
-			}
-			cur = parent[cur]
+			rev = append(rev, fmt.Sprintf("b%d[%s](%s)", cur.b.Index, cur.b.Comment, ln))
 			if len(rev) > 200 {
 				break
 			}
@@ -752,10 +1038,14 @@ func (c *Ctx) escapePath(fn *ssa.Function, from ssa.Instruction, via, bad func(s
 		n := queue[0]
 		queue = queue[1:]
 		if !first || n.idx == 0 {
-			if visited[n.b] {
+			k := vkey{n.b, nil}
+			if isThreaded(n.b) {
+				k.from = n.from
+			}
+			if visited[k] {
 				continue
 			}
-			visited[n.b] = true
+			visited[k] = true
 		}
 		first = false
 		stopped := false
@@ -766,19 +1056,14 @@ func (c *Ctx) escapePath(fn *ssa.Function, from ssa.Instruction, via, bad func(s
 				break
 			}
 			if bad(i) {
-				return render(n.b, i)
+				return render(n, i)
 			}
 		}
 		if stopped {
 			continue
 		}
-		for _, s := range n.b.Succs {
-			if !visited[s] {
-				if _, ok := parent[s]; !ok {
-					parent[s] = n.b
-				}
-				queue = append(queue, node{s, 0})
-			}
+		for _, s := range feasibleSuccs(n.b, n.from) {
+			queue = append(queue, &node{b: s, from: n.b, par: n})
 		}
 	}
 	return nil
@@ -805,12 +1090,42 @@ type countResult struct {
 // countOnPaths computes min/max number of events over all entry→return paths.
 // Paths ending in panic are ignored. Events on a cycle set InLoop.
 func countOnPaths(fn *ssa.Function, event func(ssa.Instruction) int) countResult {
-	n := len(fn.Blocks)
-	w := make([]int, n)
+	bw := make([]int, len(fn.Blocks))
 	for _, b := range fn.Blocks {
 		for _, i := range b.Instrs {
-			w[b.Index] += event(i)
+			bw[b.Index] += event(i)
 		}
+	}
+	// nodes: one per block, except that a block branching on a flag (see feasibleSuccs) gets one node per predecessor
+	type nkey struct{ b, from *ssa.BasicBlock }
+	id := map[nkey]int{}
+	var nodes []nkey
+	var adj [][]int
+	var mk func(b, from *ssa.BasicBlock) int
+	mk = func(b, from *ssa.BasicBlock) int {
+		k := nkey{b, nil}
+		if isThreaded(b) {
+			k.from = from
+		}
+		if v, ok := id[k]; ok {
+			return v
+		}
+		v := len(nodes)
+		id[k] = v
+		nodes = append(nodes, k)
+		adj = append(adj, nil)
+		var out []int
+		for _, s := range feasibleSuccs(b, k.from) {
+			out = append(out, mk(s, b))
+		}
+		adj[v] = out
+		return v
+	}
+	mk(fn.Blocks[0], nil)
+	n := len(nodes)
+	w := make([]int, n)
+	for v, k := range nodes {
+		w[v] = bw[k.b.Index]
 	}
 	// SCCs (Tarjan)
 	index := make([]int, n)
@@ -829,14 +1144,14 @@ func countOnPaths(fn *ssa.Function, event func(ssa.Instruction) int) countResult
 		idx++
 		stack = append(stack, v)
 		on[v] = true
-		for _, s := range fn.Blocks[v].Succs {
-			if index[s.Index] < 0 {
-				strong(s.Index)
-				if low[s.Index] < low[v] {
-					low[v] = low[s.Index]
+		for _, s := range adj[v] {
+			if index[s] < 0 {
+				strong(s)
+				if low[s] < low[v] {
+					low[v] = low[s]
 				}
-			} else if on[s.Index] && index[s.Index] < low[v] {
-				low[v] = index[s.Index]
+			} else if on[s] && index[s] < low[v] {
+				low[v] = index[s]
 			}
 		}
 		if low[v] == index[v] {
@@ -863,8 +1178,8 @@ func countOnPaths(fn *ssa.Function, event func(ssa.Instruction) int) countResult
 		}
 		size[comp[v]]++
 		cw[comp[v]] += w[v]
-		for _, s := range fn.Blocks[v].Succs {
-			if s.Index == v {
+		for _, s := range adj[v] {
+			if s == v {
 				selfLoop[comp[v]] = true
 			}
 		}
@@ -900,7 +1215,7 @@ func countOnPaths(fn *ssa.Function, event func(ssa.Instruction) int) countResult
 			if comp[v] != k {
 				continue
 			}
-			b := fn.Blocks[v]
+			b := nodes[v].b
 			if len(b.Instrs) > 0 {
 				if _, ok := b.Instrs[len(b.Instrs)-1].(*ssa.Return); ok {
 					res.Exits++
@@ -912,8 +1227,8 @@ func countOnPaths(fn *ssa.Function, event func(ssa.Instruction) int) countResult
 					}
 				}
 			}
-			for _, s := range b.Succs {
-				t := comp[s.Index]
+			for _, s := range adj[v] {
+				t := comp[s]
 				if t == k {
 					continue
 				}
@@ -1531,4 +1846,42 @@ func (c *Ctx) mayAcquire(fn *ssa.Function, depth int, seen map[*ssa.Function]boo
 		}
 	})
 	return out
+}
+
+// exprKnown renders v as seen in block blk: a literal nil of an interface/pointer type under a dominating test
+// `X == nil` of a single value X of the same type is X itself (`return n, nil` after `if err != nil { return n, err }`).
+func (c *Ctx) exprKnown(v ssa.Value, blk *ssa.BasicBlock) string {
+	e := c.Expr(v)
+	if e != "nil" || blk == nil {
+		return e
+	}
+	var found []string
+	for _, g := range guardsOf(blk) {
+		bo, ok := g.Cond.(*ssa.BinOp)
+		if !ok || !(bo.Op == token.EQL && g.Pol || bo.Op == token.NEQ && !g.Pol) {
+			continue
+		}
+		for _, pair := range [][2]ssa.Value{{bo.X, bo.Y}, {bo.Y, bo.X}} {
+			if k, isC := pair[1].(*ssa.Const); isC && k.IsNil() && types.Identical(pair[0].Type(), v.Type()) {
+				found = append(found, c.Expr(pair[0]))
+			}
+		}
+	}
+	found = uniq(found)
+	if len(found) == 1 {
+		return found[0]
+	}
+	return e
+}
+
+// allocOfStruct: al allocates a value of the named struct type (not a pointer variable that merely points to one).
+func allocOfStruct(al *ssa.Alloc, nameSuffix string) bool {
+	pt, ok := al.Type().Underlying().(*types.Pointer)
+	if !ok {
+		return false
+	}
+	if _, isPtr := pt.Elem().Underlying().(*types.Pointer); isPtr {
+		return false
+	}
+	return strings.HasSuffix(typeName(al.Type()), nameSuffix)
 }
